@@ -318,4 +318,99 @@ theorem exactLookup_spec (v : Str) (rest : List (List Decl)) : ∀ (i : Nat),
         · exact hno
         · exact ih2 h s hs
 
+/-! ## the listing's sort is a stable sort; its last element is the one `lastMax` finds -/
+
+
+theorem insertVer_perm (x : Str × Lexed) (l : List (Str × Lexed)) : (insertVer x l).Perm (x :: l) := by
+  induction l with
+  | nil => simp [insertVer]
+  | cons y ys ih =>
+    simp only [insertVer]
+    split
+    · exact List.Perm.refl _
+    · exact (List.Perm.cons y ih).trans (List.Perm.swap x y ys)
+
+theorem sortVers_perm (l : List (Str × Lexed)) : (sortVers l).Perm l := by
+  induction l with
+  | nil => exact List.Perm.refl _
+  | cons x xs ih =>
+    simp only [sortVers]
+    exact (insertVer_perm x (sortVers xs)).trans (List.Perm.cons x ih)
+
+theorem insertVer_sorted (x : Str × Lexed) (l : List (Str × Lexed)) (hx : convLexed x.2 = true)
+    (hl : ∀ p ∈ l, convLexed p.2 = true) (hs : l.Pairwise (fun a b => cmpSort a.2 b.2 ≤ 0)) :
+    (insertVer x l).Pairwise (fun a b => cmpSort a.2 b.2 ≤ 0) := by
+  induction l with
+  | nil => simp [insertVer]
+  | cons y ys ih =>
+    have hy := hl y (by simp)
+    have hys : ∀ p ∈ ys, convLexed p.2 = true := fun p hp => hl p (by simp [hp])
+    obtain ⟨hyall, hsy⟩ := List.pairwise_cons.mp hs
+    simp only [insertVer]
+    split
+    · rename_i hle
+      refine List.pairwise_cons.mpr ⟨?_, hs⟩
+      intro z hz
+      rcases List.mem_cons.mp hz with rfl | hz
+      · exact hle
+      · exact good_cmpSort.trans x.2 y.2 z.2 hx hy (hys z hz) hle (hyall z hz)
+    · rename_i hgt
+      refine List.pairwise_cons.mpr ⟨?_, ih hys hsy⟩
+      intro z hz
+      rcases (mem_insertVer x z ys).mp hz with rfl | hz
+      · rw [cmpSort_antisym]; omega
+      · exact hyall z hz
+
+theorem sortVers_sorted (l : List (Str × Lexed)) (hl : ∀ p ∈ l, convLexed p.2 = true) :
+    (sortVers l).Pairwise (fun a b => cmpSort a.2 b.2 ≤ 0) := by
+  induction l with
+  | nil => simp [sortVers]
+  | cons x xs ih =>
+    simp only [sortVers]
+    have hxs : ∀ p ∈ xs, convLexed p.2 = true := fun p hp => hl p (by simp [hp])
+    exact insertVer_sorted x _ (hl x (by simp)) (fun p hp => hxs p ((mem_sortVers p xs).mp hp)) (ih hxs)
+
+/-- elements that compare equal keep their relative order: the new element goes in front of its equals -/
+theorem insertVer_stable (m x : Str × Lexed) (l : List (Str × Lexed)) (hm : convLexed m.2 = true) (hx : convLexed x.2 = true)
+    (hl : ∀ p ∈ l, convLexed p.2 = true) :
+    (insertVer x l).filter (fun y => cmpSort y.2 m.2 == 0) = (x :: l).filter (fun y => cmpSort y.2 m.2 == 0) := by
+  induction l with
+  | nil => simp [insertVer]
+  | cons y ys ih =>
+    have hy := hl y (by simp)
+    have hys : ∀ p ∈ ys, convLexed p.2 = true := fun p hp => hl p (by simp [hp])
+    simp only [insertVer]
+    split
+    · rfl
+    · rename_i hgt
+      have hyx : cmpSort y.2 x.2 < 0 := by rw [cmpSort_antisym]; omega
+      rw [List.filter_cons, ih hys]
+      by_cases hxm : cmpSort x.2 m.2 = 0
+      · -- `y < x ≈ m`: `y` is not in the class
+        have hym : cmpSort y.2 m.2 < 0 := good_cmpSort.lt_of_lt_le hy hx hm hyx (by omega)
+        have : (cmpSort y.2 m.2 == 0) = false := by simp only [beq_eq_false_iff_ne, ne_eq]; omega
+        simp [List.filter_cons, this, hxm]
+      · have : (cmpSort x.2 m.2 == 0) = false := by simpa using hxm
+        simp [List.filter_cons, this]
+
+theorem sortVers_stable (m : Str × Lexed) (l : List (Str × Lexed)) (hm : convLexed m.2 = true)
+    (hl : ∀ p ∈ l, convLexed p.2 = true) :
+    (sortVers l).filter (fun y => cmpSort y.2 m.2 == 0) = l.filter (fun y => cmpSort y.2 m.2 == 0) := by
+  induction l with
+  | nil => simp [sortVers]
+  | cons x xs ih =>
+    have hxs : ∀ p ∈ xs, convLexed p.2 = true := fun p hp => hl p (by simp [hp])
+    simp only [sortVers]
+    rw [insertVer_stable m x _ hm (hl x (by simp)) (fun p hp => hxs p ((mem_sortVers p xs).mp hp))]
+    simp only [List.filter_cons, ih hxs]
+
+/-- the last element of the listing's sort is the element the `latest` selection finds -/
+theorem sortVers_getLast (l : List (Str × Lexed)) (m : Str × Lexed) (hm : lastMax none l = some m)
+    (hl : ∀ p ∈ l, convLexed p.2 = true) : (sortVers l).getLast? = some m := by
+  have hne : l ≠ [] := by intro e; subst e; simp [lastMax] at hm
+  obtain ⟨m', hm', hmem, _⟩ := lastMax_none_spec l hne hl
+  rw [hm] at hm'; cases hm'
+  exact getLast_stableSort l (sortVers l) m hm hl (sortVers_perm l) (sortVers_sorted l hl)
+    (sortVers_stable m l (hl m hmem) hl)
+
 end EupsModel.VersionCmp
